@@ -513,3 +513,40 @@ theorem parse_cases (s : Bytes) :
         simpa using this
 
 end GoCrypt.Parse
+
+namespace GoCrypt.Parse
+open Bytes
+
+/-! ## The prefix survives the fragment loop -/
+
+theorem flush_pfx (st : PState) : st.flush.pfx = st.pfx := by
+  unfold PState.flush
+  cases st.value <;> cases st.group <;> rfl
+
+theorem frag_loop_pfx (rest : Bytes) : ∀ (st : PState) (start : Nat) (acc : Bytes) (t : Tree),
+    parseToks st (lexFrag rest start acc) = .ok t → t.pfx = st.pfx := by
+  induction rest with
+  | nil =>
+    intro st start acc t h
+    rw [parseToks_lexFrag_nil] at h
+    by_cases hacc : acc = []
+    · simp only [hacc, if_true, Result.ok.injEq] at h
+      subst h; exact flush_pfx st
+    · simp only [hacc, if_false, Result.ok.injEq] at h
+      subst h; rw [flush_pfx]; rfl
+  | cons c cs ih =>
+    intro st start acc t h
+    by_cases h1 : c = dollar
+    · subst h1
+      rw [parseToks_lexFrag_dollar] at h
+      have := ih _ _ _ _ h
+      rw [this, flush_pfx]; rfl
+    · by_cases h2 : c = comma
+      · subst h2
+        rw [parseToks_lexFrag_comma] at h
+        have := ih _ _ _ _ h
+        simpa using this
+      · rw [parseToks_lexFrag_other _ _ _ _ _ h1 h2] at h
+        exact ih _ _ _ _ h
+
+end GoCrypt.Parse
